@@ -293,6 +293,66 @@ def r7(c):
     c.ob('run_cmd/disable', ok, 'after applying a setting, !self.enabled ends the session with SessionError::Disabled', '', loc_of(rc))
     r = P.outer(TT + '::run_connection')
     c.ob('phys-owned', r.sig_in and norm(r.sig_in[1]) == 'rodbus::common::phys::PhysLayer', 'run_connection owns the physical layer by value: returning from it closes the connection', str(r.sig_in), loc_of(r))
+    # ... and it stays owned by that frame: the value is only lent (&mut) or dropped, never put anywhere that outlives the call
+    rb = P.fn(TT + '::run_connection')
+    PL = 'rodbus::common::phys::PhysLayer'
+    def ops(x):
+        if isinstance(x, dict):
+            if x.get('k') == 'move' and 'pl' in x:
+                yield x
+            for v in x.values():
+                yield from ops(v)
+        elif isinstance(x, list):
+            for v in x:
+                yield from ops(v)
+    kept = []
+    wrapped = set()
+    nmoves = 0
+    def is_pl_field(pl):
+        return bool(pl['p']) and pl['p'][-1].startswith('field:') and any(f['name'] == pl['p'][-1].split(':', 2)[2] and PL in f['ty'] for t in (TT, CL) for v in P.adt(t)['variants'] for f in v['fields'])
+    stores, clears, parked = [], [], set()
+    for i, blk in enumerate(rb.blocks):
+        if blk['cleanup']:
+            continue
+        for s in blk['stmts'] + [blk['term']]:
+            if s.get('s') == 'assign' and is_pl_field(s['pl']):
+                isnone = (s['rv']['r'] == 'agg' and s['rv'].get('variant') == 'None') or (s['rv']['r'] == 'use' and (lambda v: v.kind == 'agg' and isinstance(v.extra, dict) and v.extra.get('variant') == 'None')(q.sem(rb, s['rv']['a'][0])))
+                (clears if isnone else stores).append(('b', i))
+            if s.get('t') == 'call' and norm(s.get('callee', '')).startswith('core::option::Option::') and s['args']:
+                tgt = q.sem(rb, s['args'][0])
+                if tgt.kind == 'place' and tgt.proj and any(f['name'] == tgt.proj[-1].split(':', 2)[-1] and PL in f['ty'] for t in (TT, CL) for v in P.adt(t)['variants'] for f in v['fields']):
+                    m_ = norm(s['callee']).rsplit('::', 1)[-1]
+                    if m_ == 'take':
+                        clears.append(('b', i))
+                    elif m_ in ('insert', 'replace', 'get_or_insert', 'get_or_insert_with'):
+                        stores.append(('b', i))
+                        parked.add(i)
+            for o in ops(s):
+                ty = norm(rb.d['locals'][o['pl']['l']])
+                if o['pl']['p'] or not (ty == PL or (o['pl']['l'] in wrapped)):
+                    continue
+                nmoves += 1
+                if s.get('t') == 'call' and norm(s.get('callee', '')) in ('core::mem::drop',):
+                    continue
+                if s.get('s') == 'assign' and s['rv']['r'] == 'use' and not s['pl']['p'] and norm(rb.d['locals'][s['pl']['l']]) == ty:
+                    if o['pl']['l'] in wrapped:
+                        wrapped.add(s['pl']['l'])
+                    continue
+                if s.get('s') == 'assign' and s['rv']['r'] == 'agg' and s['rv'].get('variant') == 'Some' and not s['pl']['p']:
+                    wrapped.add(s['pl']['l'])      # Some(phys): followed to where it is put
+                    continue
+                if (s.get('s') == 'assign' and is_pl_field(s['pl'])) or i in parked:
+                    continue                       # parked in a field of the task: must be cleared again, see below
+                kept.append('bb%d' % i)
+    c.ob('phys-not-kept', not kept, 'run_connection never moves the physical layer anywhere but into drop() (or a field it clears again): nothing can keep the socket open after it returns', 'moved at %s' % kept, loc_of(rb), examined=nmoves)
+    leaks = []
+    # (the Shutdown outcome ends the task, which drops the task object and everything in it)
+    down = [e for e, _ in q.arms_of(rb, 'rodbus::client::task::SessionError').get('Shutdown', [])] if stores else []
+    for st in stores:
+        okp, leak = q.always_passes(rb, st, clears, escapes=down)
+        if not okp or st in clears:
+            leaks.append(st)
+    c.ob('phys-cleared', not leaks, 'if the connection is parked in a field of the task while it runs, every way out of run_connection clears that field first', 'stores %s not followed by a clear on every path' % leaks, loc_of(rb), examined=len(stores))
     ch = P.fn(CL + '::change_setting')
     arms = q.arms_of(ch, 'rodbus::client::message::Setting')
     for v, want in (('Enable', 1), ('Disable', 0)):
